@@ -649,6 +649,44 @@ fn unwrap_elem(p: &UnwrapParams, r: &mut Rng, depth: usize, tag_indent: usize, l
     )
 }
 
+// ------------------------------------------------------------------ wrapper-line child templates
+
+/// Bounded-exhaustive templates around the geometry "a child element opens on the tag line or
+/// wrapper line of an unwrap-block and closes on a later line", with stray delimiters and
+/// multi-byte characters next to the tags. `rank` enumerates pre x sep x body x post x gap x
+/// readiness; returns None when rank is out of range.
+pub fn wrapper_child_template(rank: u64, sp: &Sp) -> Option<String> {
+    let fill: [&str; 7] = ["", "x", "あ", "\t", " ", "DE", "🎈 "];
+    let seps: [&str; 4] = ["", " ", "x", "\n"];
+    let dims = [fill.len() as u64, seps.len() as u64, 3, fill.len() as u64, 3, 2, 2, 2];
+    let total: u64 = dims.iter().product();
+    if rank >= total {
+        return None;
+    }
+    let mut r = rank;
+    let mut idx = [0usize; 8];
+    for k in (0..8).rev() {
+        idx[k] = (r % dims[k]) as usize;
+        r /= dims[k];
+    }
+    let f = |s: &str| -> String { if s == "DE" { sp.de.clone() } else { s.to_string() } };
+    let (pre, sep, nbody, post, gap) = (f(fill[idx[0]]), seps[idx[1]], idx[2], f(fill[idx[3]]), idx[4]);
+    let u_name = if idx[5] == 0 { "feat-a" } else { "zzz" };
+    let c_name = if idx[6] == 0 { "feat-a" } else { "zzz" };
+    let c_unwrap = if idx[7] == 0 { "" } else { " unwrap-block" };
+    let (ds, de, mk) = (&sp.ds, &sp.de, &sp.mk);
+    let mut s = format!("\n\t{pre}{ds}{mk} name='{u_name}' unwrap-block{de}{sep}{ds}{mk} name='{c_name}'{c_unwrap}{de}");
+    for k in 0..nbody {
+        s.push_str(&format!("\n  body{k}();"));
+    }
+    s.push_str(&format!("\n{ds}/{mk}{de}{post}"));
+    for k in 0..gap {
+        s.push_str(if k == 0 { "\n" } else { "\n  tail();" });
+    }
+    s.push_str(&format!("\n{ds}/{mk}{de}"));
+    Some(s)
+}
+
 // ------------------------------------------------------------------ G-lineseq
 
 /// Line atoms of the bounded-exhaustive line-sequence generator: every document is a sequence
